@@ -206,6 +206,29 @@ impl RealConfig {
             RealConfig { ptr }
         }
     }
+    /// The same object, changed in place to hold `cfg` (what a front-end does when the user changes a setting).
+    pub fn apply(&self, cfg: &Cfg) {
+        unsafe {
+            let ptr = self.ptr;
+            let lp = CString::new(cfg.layout_path()).unwrap();
+            assert!(riti_config_set_layout_file(ptr, lp.as_ptr()), "layout path rejected: {:?}", lp);
+            if cfg.db {
+                let dp = CString::new(repo_dir().join("data").to_string_lossy().into_owned()).unwrap();
+                assert!(riti_config_set_database_dir(ptr, dp.as_ptr()));
+            }
+            riti_config_set_ansi_encoding(ptr, cfg.ansi);
+            riti_config_set_suggestion_include_english(ptr, cfg.english);
+            riti_config_set_phonetic_suggestion(ptr, cfg.psug);
+            riti_config_set_fixed_suggestion(ptr, cfg.fsug);
+            riti_config_set_fixed_auto_vowel(ptr, cfg.vowel);
+            riti_config_set_fixed_auto_chandra(ptr, cfg.chandra);
+            riti_config_set_fixed_traditional_kar(ptr, cfg.kar);
+            riti_config_set_fixed_old_reph(ptr, cfg.reph);
+            riti_config_set_fixed_numpad(ptr, cfg.numpad);
+            riti_config_set_fixed_old_kar_order(ptr, cfg.karorder);
+            riti_config_set_smart_quote(ptr, cfg.smart);
+        }
+    }
     pub fn get(&self) -> &Config {
         unsafe { &*self.ptr }
     }
@@ -359,6 +382,8 @@ pub struct Ctx {
     pub user_home: PathBuf,
     /// a panic happened inside an engine call: the context must not be used any more
     pub dead: bool,
+    /// number of update-engine calls so far
+    pub updates: u64,
 }
 
 impl Ctx {
@@ -374,6 +399,7 @@ impl Ctx {
                 ctx: Some(ctx),
                 user_home: user_home.to_path_buf(),
                 dead: false,
+                updates: 0,
             }),
             Err(_) => Err(take_panic()),
         }
@@ -437,6 +463,15 @@ impl Ctx {
     }
     pub fn update(&mut self, cfg: &Cfg) -> Obs {
         let t0 = thread_cpu_us();
+        // every other re-configuration re-uses the configuration OBJECT the context was given before, changed in place (a
+        // front-end keeps one object); the others hand over a new object
+        self.updates += 1;
+        if self.updates % 2 == 0 && cfg.db == self.cfg.db {
+            self.real.apply(cfg);
+            let r = self.call(Op::Update(self.real.get_static()));
+            self.cfg = cfg.clone();
+            return self.finish_obs(r, t0);
+        }
         let real = RealConfig::new(cfg, &self.user_home);
         let r = self.call(Op::Update(real.get_static()));
         self.cfg = cfg.clone();
